@@ -44,3 +44,9 @@ Proof. repeat split; vm_compute; reflexivity. Qed.
 Example C06_ex_walk : header_ok {| h_const := 0; h_lossless := 0; h_size8 := 1; h_other := 0; h_params := ex_block; h_exactByteSize := 2; h_length := 4099 |} = true
   /\ m_length (get_metadata (header_bytes {| h_const := 0; h_lossless := 0; h_size8 := 1; h_other := 0; h_params := ex_block; h_exactByteSize := 2; h_length := 4099 |} ++ [7; 7; 7])) = 4099.
 Proof. split; vm_compute; reflexivity. Qed.
+
+(* integer streams (T2, regenerated from TightDataPointStorageI.c, sz.c and Huffman.c on every run): the metadata query reads the real
+   number of intervals at the end of the fields written before the coded type array plus one word, for both size types *)
+Theorem C06_meta_int_offset : meta_int_offset_checks = true.
+Proof. exact meta_int_offset_ok. Qed.
+Print Assumptions C06_meta_int_offset.
